@@ -37,6 +37,7 @@ type c14Case struct {
 	Wrong         bool   `json:"wrong_secret"` // the server holds a different password
 	Admissible    bool   `json:"admissible"`   // false: no profile admits the credentials for SCRAM
 	SaltLen       int    `json:"salt_len"`
+	SaltOctets    string `json:"salt_octets,omitempty"` // "" pattern | tail-zero | tail-zeros | lead-zero | all-zero | all-ff | text (the salt is an octet string)
 	Iter          int    `json:"iter"`
 	Nonce         string `json:"server_nonce"`
 	Challenge     string `json:"cram_challenge"`
@@ -134,6 +135,9 @@ func genC14(r *mrand.Rand, i int) c14Case {
 		// the challenge is an opaque octet string: white space at its ends, control characters and NUL belong to it
 		"<id@host>\r\n", " <id@host>", "\tnonce\t", "<id@host>\u00a0", "\x0c<id@host> ", "a\x00b", "\n", "  "})
 	c.TLSVersion = gen.Pick(r, []string{"1.2", "1.3"})
+	if r.Intn(3) == 0 {
+		c.SaltOctets = gen.Pick(r, []string{"tail-zero", "tail-zero", "tail-zeros", "lead-zero", "all-zero", "all-ff", "text"})
+	}
 	if r.Intn(4) == 0 {
 		c.ScramExt = gen.Pick(r, []string{"t=ext1", "t=ext1,u=x=y", "x=" + strings.Repeat("e", 100)})
 	}
@@ -213,6 +217,28 @@ func (c *c14Case) srv(n int) *authSrv {
 	a.Salt = make([]byte, c.SaltLen)
 	for i := range a.Salt {
 		a.Salt[i] = byte(i*37 + 11 + saltSeed)
+	}
+	for i := range a.Salt {
+		switch c.SaltOctets {
+		case "tail-zero":
+			if i == len(a.Salt)-1 {
+				a.Salt[i] = 0
+			}
+		case "tail-zeros":
+			if i >= len(a.Salt)-3 {
+				a.Salt[i] = 0
+			}
+		case "lead-zero":
+			if i == 0 {
+				a.Salt[i] = 0
+			}
+		case "all-zero":
+			a.Salt[i] = 0
+		case "all-ff":
+			a.Salt[i] = 0xff
+		case "text":
+			a.Salt[i] = "salt, with = and blanks "[i%24]
+		}
 	}
 	return a
 }
@@ -416,7 +442,7 @@ func runC14Case(r *ev.Run, c c14Case, nonces *c14Nonces) {
 			r.Count("plus_exchanges_"+c.TLSVersion, 1)
 		}
 	}
-	r.Eval(fmt.Sprintf("%s|%s|%s|%t|%d|%d|%s|%s|%s", c.Mech, c.UserClass, c.PassClass, c.Wrong, c.SaltLen, c.Iter, c.TLSVersion, c.Via, c.RetryVariant+c.ScramExt), true)
+	r.Eval(fmt.Sprintf("%s|%s|%s|%t|%d|%d|%s|%s|%s", c.Mech, c.UserClass, c.PassClass, c.Wrong, c.SaltLen, c.Iter, c.TLSVersion, c.Via, c.RetryVariant+c.ScramExt+c.SaltOctets), true)
 	if c.Via == "retry" {
 		r.Seen("retry_variants", c.RetryVariant)
 	}
